@@ -1,6 +1,7 @@
 pub mod c01;
 pub mod c02;
 pub mod c03;
+pub mod c04;
 pub mod c05;
 pub mod c06;
 pub mod c07;
@@ -24,6 +25,7 @@ pub fn run(prop: &str, tier: Tier, seed: u64) -> i32 {
         "C01" => c01::run(tier, seed),
         "C02" => c02::run(tier, seed),
         "C03" => c03::run(tier, seed),
+        "C04" => c04::run(tier, seed),
         "C05" => c05::run(tier, seed),
         "C06" => c06::run(tier, seed),
         "C07" => c07::run(tier, seed),
@@ -57,6 +59,7 @@ pub fn replay(prop: &str, path: &str) -> i32 {
         "C01" => c01::replay(&doc),
         "C02" => c02::replay(&doc),
         "C03" => c03::replay(&doc),
+        "C04" => c04::replay(&doc),
         "C05" => c05::replay(&doc),
         "C06" => c06::replay(&doc),
         "C07" => c07::replay(&doc),
